@@ -199,6 +199,38 @@ def check_union(repo, res, rule):
     res.count(rule + '_scenarios', n + 5, floor=8)
 
 
+def check_star_imports(repo, res, rule):
+    """SourceScope.resolve_star_imports interpreted with three recorded star imports, the first and the last of which
+    cannot be resolved: every public name of the resolvable one must be bound (as a star copy), private ones not, and
+    the failures must be skipped, not end the loop."""
+    from .absint import Native
+    m = get_model(repo)
+
+    def scenario():
+        top = m.scope('SourceScope', Obj(m.cls('BaseScope'), {'names': {}}, 'builtins'))
+        top.attrs['source'] = Obj(m.cls('Source'), {'filename': '/p/main.py'}, 'source') if 'Source' in m.facts.classes \
+            else Unknown('source')
+        f = m.flow('top', top)
+        top.attrs['flow'] = f
+        mod = Obj(m.cls('SourceModule'), {'_attrs': {'pub1': 1, 'pub2': 2, '_priv': 3}}, 'module b')
+
+        def get_nmodule(it, args, kwargs):
+            if args[0] in ('missing_first', 'missing_last'):
+                raise InterpRaise('ImportError', args[0])
+            return mod
+        project = Obj(m.cls('Project'), {'get_nmodule': Native('get_nmodule', get_nmodule)}, 'project')
+        top.attrs['_star_imports'] = [((1, 20), (1, 19), 'missing_first', f), ((2, 20), (2, 14), 'b', f),
+                                      ((3, 20), (3, 19), 'missing_last', f)]
+        m.it.call(m.it.getattr(top, 'resolve_star_imports'), [project], {})
+        bound = {str(n.attrs['name']): n for n in f.attrs['_names']}
+        ok = set(bound) == {'pub1', 'pub2'} and all(n.cls.name == 'ImportedName' and n.attrs.get('is_star') is True
+                                                     and n.attrs.get('module') == 'b' for n in bound.values())
+        return ok, 'names bound from `from missing_first import *; from b import *; from missing_last import *`: %s' % sorted(bound)
+    _guard(scenario, res, rule, 'star imports: an unresolvable one is skipped, the others are expanded', SCOPE,
+           'every public name of every resolvable star import must be bound (marked is_star); an unresolvable star import must '
+           'not stop the expansion of the following ones')
+
+
 def check_merged_dict(repo, res, rule):
     """MergedDict (the table type of every region): lookup prefers the earlier mapping, iteration yields each key once
     with the value lookup would give, membership and get agree with lookup, nested MergedDicts are flattened in order."""
@@ -358,6 +390,23 @@ def check_scopes(repo, res, rule_entry, rule_methods):
     _guard(func_masks, res, rule_entry, 'function-local name is never satisfied by an outer binding', SCOPE,
            'the entry region of a function must inherit the outer names minus the function\'s own locals')
 
+    def func_masks_branch_local():
+        top, tf, gx, gy = build()
+        fs = m.scope('FuncScope', top, top)
+        entry = m.flow('func', fs)
+        fs.attrs['flow'] = entry
+        branch = m.flow('if', fs, [entry])
+        other = m.flow('else', fs, [entry])
+        lx = m.name('x', (6, 8))
+        m.add(branch, lx)                       # x is bound only inside a branch of the function
+        join = m.flow('join', fs, [branch, other])
+        got = m.describe(m.lookup(m.names_at(join, (9, 4)), 'x'))
+        return got == frozenset([lx.oid, 'UNDEF']), \
+            'x bound only in one branch of the function and also at module level: read after the join sees %s, must be the ' \
+            'local binding plus "possibly undefined" (never the global %s)' % (sorted(map(str, got or [])), gx.oid)
+    _guard(func_masks_branch_local, res, rule_entry, 'a local bound in any region of the function masks the outer binding', SCOPE,
+           'the masking set is the set of all names the function binds (scope.locals), not the names of its entry region')
+
     def builtin_masked():
         top, tf, gx, gy = build()
         fs = m.scope('FuncScope', top, top)
@@ -491,4 +540,4 @@ def check_scopes(repo, res, rule_entry, rule_methods):
                 sorted(e or []), is_local)
     _guard(global_does_not_leak, res, rule_methods, 'a global declaration does not extend into nested scopes', SCOPE,
            'a `global` declaration affects only the scope that contains it; a nested function binding the name has its own local')
-    res.count(rule_entry + '_scenarios', 9, floor=9)
+    res.count(rule_entry + '_scenarios', 10, floor=10)
